@@ -2,9 +2,9 @@ PROP = dict(
     unclaimed=True,
     module="M3d.Props.C19",
     corr=dict(quick=500, thorough=2500),
-    gen=[],
+    gen=["ReflectAmount"],
     corr_theorems=(
-        "schlick: M3d.C19.schlick_endpoints_monotone / reflectAmount_range; rdens rddens rsamp rsampd rbsdf: "
+        "schlick schlickg: M3d.C19.schlick_endpoints_monotone / reflectAmount_range / reflectAmount_source_is_schlick (schlickg runs the definition regenerated from material.go); rdens rddens rsamp rsampd rbsdf: "
         "refract_sampler_matches_density, lobe_split_sums_to_one, dest_density_symmetry; cyl: cylinder_sample_on_surface, "
         "cylinder_cap_sample_on_surface, cylinder_part_proportional, total_emission_eq_emission_times_area; sphere: "
         "sphere_sample_on_surface; mesh: mesh_sample_on_surface, triangle_sample_inside, triangle_sample_on_plane, "
